@@ -117,13 +117,25 @@ def lcmv(d, ctx):
         G = atf[:, f].conj() @ np.linalg.solve(phi[f], atf[:, f].T)
         if np.linalg.cond(G) > 1e6:
             raise Borderline('nearly dependent steering vectors')
+        # the library stores the response in single precision (its one
+        # documented-by-code rounding: |r_k - float32(r_k)|, zero for 0/1
+        # responses); beyond that the constraint residual is the backward error
+        # of the two solves, eps * (cond(G) + cond(Phi)) with a margin of 1e4
+        condG = float(np.linalg.cond(G))
+        condP = float(np.linalg.cond(phi[f]))
+        back = 1e-12 * (condG + condP) * (1 + np.abs(r).max())
         for k in range(K):
             c = w[f].conj() @ atf[k, f]
-            require(abs(c - r[k]) <= 1e-5 * (1 + np.abs(r).max()) * max(1, np.linalg.cond(G) ** 0.5),
-                    'lcmv-constraint', f'f={f} k={k}: w^H a = {c}, r = {r[k]}')
+            cast = abs(complex(np.complex64(r[k])) - r[k]) * 1.01
+            require(abs(c - r[k]) <= cast + back,
+                    'lcmv-constraint', f'f={f} k={k}: w^H a = {c}, r = {r[k]} '
+                    f'(cond G {condG:.1e}, allowed {cast + back:.1e})')
         ref = ob.lcmv(atf[:, f], r, phi[f])
+        cast_all = float(np.max(np.abs(np.asarray(r).astype(np.complex64) - r))) * 1.01
         require_close(w[f], ref, 'lcmv-closed-form',
-                      atol=1e-5 * np.linalg.norm(ref) * max(1, np.linalg.cond(G) ** 0.5) + 1e-300)
+                      atol=np.linalg.norm(ref) * (
+                          (cast_all / max(np.abs(r).max(), 1e-300) + back) * max(1.0, condG)
+                      ) + 1e-300)
         # minimum variance among all vectors meeting the constraints: add any
         # vector orthogonal to every steering vector
         A = atf[:, f].T                                        # (D, K)
